@@ -145,6 +145,17 @@ pub fn case_script(api: &dyn GlobalApi, va: &dyn VariantApi, s: &Script, st: &Ca
                 }));
             }
             (None, r) => {
+                // "all delivered bytes": the helper must drive the reader to its end of file
+                if !rd.ended && !matches!(r, Err(StreamErr::Io(_))) {
+                    return Err(format!(
+                        "{}: {} returned a result after {} read(s) ({} bytes) although the reader never reported end of file (it had {} more bytes to deliver)",
+                        v.name,
+                        what,
+                        rd.reads_with_data,
+                        rd.delivered().len(),
+                        data.len() - rd.delivered().len()
+                    ));
+                }
                 let want = va.hash_buf(rd.delivered()).ok_or("hash_buf not compiled")?;
                 let got = match r {
                     Ok(h) => Ok(h),
